@@ -24,7 +24,7 @@ def short(name):
     return '::'.join(parts[-2:])
 
 
-MAXTAGS = 6
+MAXTAGS = 4
 
 
 def tag_add(tags, cb, cls):
@@ -151,10 +151,15 @@ class TxnEngine(pair.PairEngine):
                 return {(m | cm, sv, tag, ex) for (m, sv, tag, ex) in st for cm in cms}
             t = self.prog.bodies[q].blocks[b].term
             to_ret = t.dest is not None and t.dest.is_local() and t.dest.local == 0
+            # the outcome of this call is worth remembering only if it matters later: its
+            # dirtiness differs between success and failure, or its result may become ours
+            ms = {cm for (_, cm) in summ}
+            worth = to_ret or len(ms) > 1 or b in self.body_meta(q)['fwd_calls']
             out = set()
             for (m, sv, tag, ex) in st:
                 for (cls, cm) in summ:
-                    out.add((m | cm, sv, tag_add(tag, b, cls), ('fwd', (b,)) if to_ret else ex))
+                    ntag = tag_add(tag, b, cls) if worth else tag
+                    out.add((m | cm, sv, ntag, ('fwd', (b,)) if to_ret else ex))
             return out
         return st
 
